@@ -42,6 +42,9 @@ type Engine struct {
 	Fset      *token.FileSet
 	Funcs     map[string]*ssa.Function // canonical name -> function
 	Preludes  []string                  // raw SMT preludes
+	GlobalGhosts map[string]string      // "$name" -> spec type
+	Guarded   []GuardDecl
+	Writers   []WritersDecl
 }
 
 // Unit is one verification run of a function against its contract.
@@ -361,4 +364,16 @@ func shortPos(fset *token.FileSet, p token.Pos) string {
 		fn = fn[i+1:]
 	}
 	return fmt.Sprintf("%s:%d", fn, pos.Line)
+}
+
+// GuardDecl: field Type.Field of package Pkg may only be accessed with Type.Lock held and must not escape.
+type GuardDecl struct {
+	Pkg, Type, Field, Lock string
+}
+
+// WritersDecl: only the listed functions may write field Type.Field (or the map/slice it refers to).
+type WritersDecl struct {
+	Pkg, Type, Field string
+	Allowed          []string
+	Props            []string
 }
